@@ -218,7 +218,8 @@ func (b *Box) maybeGC() {
 
 	epochsAfterWhichWeGC := b.GCExpire / b.GCSweep
 
-	if time.Duration(now-lastGC) > epochsAfterWhichWeGC {
+	// Sweep at most once per epoch
+	if now <= lastGC {
 		return
 	}
 
